@@ -68,9 +68,9 @@ def related_calls(rng, call):
         elif res == 0:
             alts.append(spec.encode(0, (T + rng.randint(1, 11)) % 12, ()))
         if res >= 2:
-            i = rng.randrange(len(dg))
-            d2 = list(dg); d2[i] = (d2[i] + rng.randint(1, 3)) % 4
-            alts.append(spec.encode(res, T, tuple(d2)))
+            # one curve digit changed - each value of the leading digit (the bits a packed cache key loses first), the second and a random
+            # one -, the same curve position one level deeper / shallower
+            alts += core._id_neighbours(c, rng)
             alts.append(spec.encode(res - 1, T, dg[:-1]))
         if 1 <= res <= 28:
             alts.append(spec.encode(res + 1, T, dg + (rng.randrange(4),)))
@@ -133,10 +133,17 @@ def run(run):
         reqs.append("hist " + ";".join(pre + [c])); kinds.append("after-random")
     for c in api[: run.n(20, 200)]:
         reqs.append("hist " + ";".join(fillall + [c])); kinds.append("after-fill")
-    for c in api:
+    # the deepest cells (resolutions 26..29: ids that use all 64 bits) with every near-collision neighbour
+    deep = []
+    for _ in range(run.n(24, 400)):
+        c = gen.rand_cell(rng, rng.choice([29, 29, 29, 28, 28, 27, 26]))
+        deep.append(rng.choice([f"cell_to_lonlat,{c}", f"cell_to_boundary,{c},{rng.randint(0, 1)},{rng.choice(['none', '1', '2'])}"]))
+    for c in deep:
+        reqs.append("hist " + c); kinds.append("fresh")
+    for c in api + deep:
         rel = related_calls(rng, c)
         if rel:
-            for r1 in rel[: (3 if quick else 8)]:
+            for r1 in rel[: (3 if quick and c not in deep else 12)]:
                 reqs.append("hist " + r1 + ";" + c); kinds.append("after-related")
             reqs.append("hist " + ";".join(rel[:6] + [c])); kinds.append("after-related")
     impl, model = core.both(run, reqs, "histories", timeout=3600)
